@@ -69,11 +69,31 @@ func vPoint(c kx) rsm2.Point {
 func run(t interface{ Fatalf(string, ...any) }, c kx) {
 	var kA, s1A, s2A, kB, s1B, s2B []byte
 	var eA, eB error
+	// the key objects are the caller's: long-term keys are reused for many exchanges, so the functions must leave
+	// every number in them as it was
+	objs := []*sm2.PrivateKey{sm2x.Priv(c.a), sm2x.Priv(c.b), sm2x.Priv(c.ra), sm2x.Priv(c.rb)}
+	pubs := []*sm2.PublicKey{sm2x.Pub(c.b.Pub), sm2x.Pub(c.rb.Pub), sm2x.Pub(c.a.Pub), sm2x.Pub(c.ra.Pub)}
+	ida, idb := append([]byte{}, c.ida...), append([]byte{}, c.idb...)
 	if p := hx.Try(func() {
-		kA, s1A, s2A, eA = sm2.KeyExchangeA(c.klen, c.ida, c.idb, sm2x.Priv(c.a), sm2x.Pub(c.b.Pub), sm2x.Priv(c.ra), sm2x.Pub(c.rb.Pub))
-		kB, s1B, s2B, eB = sm2.KeyExchangeB(c.klen, c.ida, c.idb, sm2x.Priv(c.b), sm2x.Pub(c.a.Pub), sm2x.Priv(c.rb), sm2x.Pub(c.ra.Pub))
+		kA, s1A, s2A, eA = sm2.KeyExchangeA(c.klen, ida, idb, objs[0], pubs[0], objs[2], pubs[1])
+		kB, s1B, s2B, eB = sm2.KeyExchangeB(c.klen, ida, idb, objs[1], pubs[2], objs[3], pubs[3])
 	}); p != nil {
 		t.Fatalf("KeyExchange panicked: %v\n%s", p.Val, p.Stack)
+	}
+	for i, k := range []gen.Key{c.a, c.b, c.ra, c.rb} {
+		x, y := k.Pub.Affine()
+		if objs[i].D.Cmp(k.D) != 0 || objs[i].X.Cmp(x) != 0 || objs[i].Y.Cmp(y) != 0 {
+			t.Fatalf("key exchange MODIFIED the caller's private key object #%d: D %x -> %x", i, k.D, objs[i].D)
+		}
+	}
+	for i, k := range []gen.Key{c.b, c.rb, c.a, c.ra} {
+		x, y := k.Pub.Affine()
+		if pubs[i].X.Cmp(x) != 0 || pubs[i].Y.Cmp(y) != 0 {
+			t.Fatalf("key exchange MODIFIED the caller's public key object #%d", i)
+		}
+	}
+	if !bytes.Equal(ida, c.ida) || !bytes.Equal(idb, c.idb) {
+		t.Fatalf("key exchange modified the caller's identity bytes")
 	}
 	wk, ws1, ws2, werr := cv.Exchange(c.klen, c.ida, c.idb, true, c.a.D, c.ra.D, c.b.Pub, c.rb.Pub)
 	if werr != nil {
